@@ -1,5 +1,6 @@
 import VlsModel.Model.Enforcement
 import VlsModel.Gen.FnEnforce
+import VlsModel.Gen.FnSimpleState
 import VlsModel.Lemmas.FnGen
 /-
 Shared by `Props/C01Fn.lean`, `Props/C02Fn.lean`, `Props/C03Fn.lean`: how a channel of the hand-written model
@@ -51,5 +52,16 @@ theorem policyErr_keep (f : String → Bool) (t : String) (h : f t = true) :
 theorem policyErr_demoted (f : String → Bool) (t : String) (h : f t = false) :
     Rs.policyErr f t = Except.ok () := by
   simp [Rs.policyErr, h]
+
+/-- a model channel read as the `EnforcementState` fields that the translated state checks of
+    `SimpleValidator` (`Gen/FnSimpleState.lean`) touch -/
+def toSV (c : Chan) : Gen.FnSimpleState.EnforcementState Nat Nat :=
+  { next_holder_commit_num := c.next, next_counterparty_commit_num := c.cpCommit,
+    next_counterparty_revoke_num := c.cpRevoke, current_counterparty_point := c.curPt,
+    current_holder_commit_info := c.cur, current_counterparty_commit_info := c.curInfo,
+    channel_closed := c.closed }
+
+/-- the content rules `validate_commitment_tx` as the model sees them: one Boolean (`policyOk`), some tag on refusal -/
+def contentRules (pk : Bool) (tag : String) : Rs.M Unit := if pk then .ok () else .error (.err tag)
 
 end VlsModel.Lemmas.EnforcementFn
